@@ -91,7 +91,7 @@ def explore(ctx, extended=False, focus=None):
                "raise SystemExit; builtin exit; uncaught exception; KeyboardInterrupt; os._exit) at least once, then random combinations "
                "with position, autoprove on/off and caught exits, on each file-writing backend; distinct = (autoprove, n, k, caught, "
                "termination, backend)")
-    scripts = gen(ctx.rnd, ctx.n(45, 400) * (2 if extended else 1))
+    scripts = gen(ctx.rnd, ctx.n(90, 1200) * (2 if extended else 1))
     jobs = []; meta = []
     for i, (ap, n, k, caught, t) in enumerate(scripts):
         bes = BACKENDS if (i < 30 or ctx.thorough()) else [ctx.rnd.choice(BACKENDS)]
